@@ -58,8 +58,11 @@ async fn f190_deleted_user_cannot_refresh_his_token() {
     let alice = http_client(addr);
     let identity = alice.login_user("alice", "secret123").await.expect("alice login");
     assert_eq!(identity.user_id, alice_info.id);
+    let token0 = identity.access_token.expect("token").token;
     // control: while alice exists her token refreshes (the old one is revoked, a new one is handed out)
-    alice.refresh_access_token().await.expect("control: an existing user refreshes her token");
+    let (status, token1) = refresh(addr, &token0).await;
+    assert_eq!(status, 200, "control: an existing user refreshes her token");
+    let token1 = token1.unwrap();
 
     root.delete_user(&Identifier::numeric(alice_info.id).unwrap()).await.expect("delete alice");
     assert!(root.get_user(&Identifier::numeric(alice_info.id).unwrap()).await.unwrap().is_none(), "alice is gone");
@@ -67,14 +70,34 @@ async fn f190_deleted_user_cannot_refresh_his_token() {
     assert!(http_client(addr).login_user("alice", "secret123").await.is_err(), "control: a deleted user cannot log in");
 
     // ... but the token she still holds is exchanged for a fresh one, again and again
-    let first = alice.refresh_access_token().await;
-    let second = if first.is_ok() { Some(alice.refresh_access_token().await) } else { None };
-    println!("F190: user {} deleted; POST /users/refresh-token with her token -> {first:?}, with the token that returned -> {second:?}", alice_info.id);
+    let (first, token2) = refresh(addr, &token1).await;
+    let second = match &token2 {
+        Some(t) => Some(refresh(addr, t).await.0),
+        None => None,
+    };
+    println!("F190: user {} deleted; POST /users/refresh-token with her token -> HTTP {first}, with the token that returned -> {second:?}", alice_info.id);
     assert!(
-        first.is_err(),
-        "F190: the deleted user {} was handed a fresh access token (refresh -> {first:?}, again -> {second:?}): deleting the user did not end the credential's validity",
+        first != 200,
+        "F190: the deleted user {} was handed a fresh access token (refresh -> HTTP {first}, again -> {second:?}): deleting the user did not end the credential's validity",
         alice_info.id
     );
+    assert_eq!(first, 401, "a refused refresh is answered 401 Unauthorized");
+}
+
+// `POST /users/refresh-token {"token": t}` -> (HTTP status, the fresh token if one was handed out). Plain reqwest: the SDK's
+// `HttpClient::refresh_access_token` cannot be used - it awaits the write lock of its token cell while still holding the read guard
+// (observation O4: it never returns).
+async fn refresh(addr: SocketAddr, token: &str) -> (u16, Option<String>) {
+    let response = reqwest::Client::new()
+        .post(format!("http://{addr}/users/refresh-token"))
+        .json(&serde_json::json!({ "token": token }))
+        .send()
+        .await
+        .expect("request");
+    let status = response.status().as_u16();
+    let body: serde_json::Value = response.json().await.unwrap_or(serde_json::Value::Null);
+    let fresh = body.get("access_token").and_then(|t| t.get("token")).and_then(|t| t.as_str()).map(|t| t.to_string());
+    (status, fresh)
 }
 
 #[tokio::test(flavor = "multi_thread", worker_threads = 4)]
